@@ -63,7 +63,8 @@ PROPS = {
     'C06': _hyb('C06', 'MoleculeResolver.resolve at every intermediate (coarse) level: the level counter advances by one, the returned coarse graph IS the previous '
                 'fine graph (same object, same nodes and bonds), its atom names have become the fragment names, and every step is called in a state that '
                 'satisfies its contract (resolve_disconnected_molecule -> edges_from_bonding_descrpt -> squash_atoms -> annotate_fragments, each discharged separately; '
-                'sort_nodes_by_attr assumed), and the membership bi-implication between the two returned graphs; the final all-atom level is outside this contract (pysmiles hydrogen completion)',
+                'sort_nodes_by_attr assumed), and the membership bi-implication between the two returned graphs; read_fragment_strings reads the k-th string k-th and as atomistic exactly '
+                'when it is the last one and the flag is set; MoleculeResolver.__init__ establishes the state resolve() starts from (level 0 of len(fragment_dicts)); the final all-atom level is outside this contract (pysmiles hydrogen completion)',
                 'stepwise resolution == flattened two-level string; resolve / resolve_iter / resolve_all agree; each coarse graph is the previous fine graph.', _T_EXT),
     'C07': _bnd('C07', 'read_cgsmiles(write_cgsmiles_graph(G)) isomorphic to G over all connected graphs <= 4 nodes x all bond-order assignments 0-4 (quick), <= 6 nodes sampled (thorough), relabelings.',
                 'The DFS writer and the scanner are serialiser/scanner code outside the accepted subset (DESIGN §6 C07).', _T_EXT),
